@@ -103,7 +103,8 @@ theorem log_follows_own_step_start {s : St} (hs : Reachable s) {pre post : List 
     * unless the result object at `l` was re-created in between (a second start of the same test /
       setup / teardown: never produced by a run), handling `e` appends exactly `e`'s entry at the END of
       the entries of step `k` at `l`, whose description is still `d`, and changes no step of any other
-      location (no other test's result, no setup / teardown result). -/
+      location (no other test's result, no setup / teardown result); the writer's `active_steps[t]` is
+      (and stays) that step. -/
 theorem log_lands_in_own_step {s : St} (hs : Reachable s) {pre post : List Event} {e : Event}
     (hsplit : s.fired = pre ++ e :: post) (hl : logLike e = true) {t : Nat} {l : Loc} {d : String} {en : Entry}
     (ht : evTid e = some t) (hloc : evLoc e = some l) (hd : evStep e = some d) (hen : entryOf e = some en)
@@ -114,7 +115,9 @@ theorem log_lands_in_own_step {s : St} (hs : Reachable s) {pre post : List Event
       ((∀ x ∈ pre2, startsResult x ≠ some l) →
         ∃ ss st, getSteps l w.report = some ss ∧ ss[steps1.length]? = some st ∧ st.description = d ∧
           getSteps l w'.report = some (modifyNth (addEntryToStep en) steps1.length ss) ∧
-          ∀ l', l' ≠ l → getSteps l' w'.report = getSteps l' w.report) := by
+          (∀ l', l' ≠ l → getSteps l' w'.report = getSteps l' w.report) ∧
+          w.active.lookup t = some { target := some (l, steps1.length), endTime := none } ∧
+          w'.active = w.active) := by
   obtain ⟨time, pre1, pre2, h1, h2⟩ := log_follows_own_step_start hs hsplit hl ht hloc hd
   subst h1
   obtain ⟨w1, hw1, hrest⟩ := run_append_ok.mp hw
@@ -132,12 +135,12 @@ theorem log_lands_in_own_step {s : St} (hs : Reachable s) {pre post : List Event
     obtain ⟨ss, k3, k4⟩ := k2 _ g2
     obtain ⟨st, k5, k6, _⟩ := k4.keep steps1.length (newStep d time) (by simp)
     rw [apply_logLike hl ht hloc hen] at hw'
-    obtain ⟨ref, m1, _, _, m4⟩ := addEntry_spec hw'
+    obtain ⟨ref, m1, _, m3, m4⟩ := addEntry_spec hw'
     rw [k1] at m1; injection m1 with m1; subst m1
     dsimp only at m4
     obtain ⟨steps, m5, m6, m7⟩ := m4
     rw [k3] at m5; injection m5 with m5; subst m5
-    exact ⟨ss, st, k3, k5, k6, m6, m7⟩
+    exact ⟨ss, st, k3, k5, k6, m6, m7, k1, m3⟩
 
 /-- **Per-thread emission order is preserved** (writer side): handling any event never removes,
     reorders or rewrites what is already recorded — at every location whose result the event does not
@@ -152,6 +155,51 @@ theorem recorded_entries_only_grow {w w' : WriterState} {x : Event} (h : Writer.
         ∃ st' : Step, ss'[n]? = some st' ∧ st'.description = st.description ∧ st.entries <+: st'.entries := by
   obtain ⟨ss', h1, h2⟩ := apply_grow h hl hss
   exact ⟨ss', h1, h2.len, h2.keep⟩
+
+/-- **`same_thread_order`** — "in emission order per thread".  Two log / check / url / attachment events
+    `e1`, `e2` of the same thread `t`, `e1` fired before `e2`, with no StepStart / StepEnd of `t` between
+    them (so both belong to the same step of `t`): after the writer handled `e2`, both entries are in the
+    SAME step of the result at their location and `e1`'s entry comes before `e2`'s — whatever other
+    threads and tests emitted in between (`X`). -/
+theorem same_thread_order {s : St} (hs : Reachable s) {pre mid post : List Event} {e1 e2 : Event}
+    (hsplit : s.fired = pre ++ e1 :: (mid ++ e2 :: post))
+    (hl1 : logLike e1 = true) (hl2 : logLike e2 = true) {t : Nat} {l : Loc} {d : String} {en1 en2 : Entry}
+    (ht1 : evTid e1 = some t) (hloc1 : evLoc e1 = some l) (hd1 : evStep e1 = some d) (hen1 : entryOf e1 = some en1)
+    (ht2 : evTid e2 = some t) (hloc2 : evLoc e2 = some l) (hen2 : entryOf e2 = some en2)
+    (hmid : ∀ x ∈ mid, isStepEvOf t x = false)
+    (hfresh : ∀ x ∈ pre ++ mid, startsResult x ≠ some l)
+    {w w1 w2 w3 : WriterState} (hw : Writer.run Writer.initState pre = .ok w) (hw1 : Writer.apply w e1 = .ok w1)
+    (hw2 : Writer.run w1 mid = .ok w2) (hw3 : Writer.apply w2 e2 = .ok w3) :
+    ∃ (k : Nat) (ss : List Step) (st : Step) (E X : List Entry),
+      getSteps l w3.report = some ss ∧ ss[k]? = some st ∧ st.description = d ∧
+      st.entries = E ++ [en1] ++ X ++ [en2] := by
+  obtain ⟨time, pre1, pre2, w0, steps1, g1, _, _, _, g5⟩ :=
+    log_lands_in_own_step hs hsplit hl1 ht1 hloc1 hd1 hen1 hw hw1
+  have hfresh1 : ∀ x ∈ pre2, startsResult x ≠ some l := by
+    intro x hx; apply hfresh x; rw [g1]; simp [hx]
+  obtain ⟨ss0, st0, a1, a2, a3, a4, _, a6, a7⟩ := g5 hfresh1
+  -- after e1
+  have hact1 : w1.active.lookup t = some { target := some (l, steps1.length), endTime := none } := by
+    rw [a7]; exact a6
+  obtain ⟨b1, b2⟩ := run_stable mid w1 w2 hw2 hmid (fun x hx => hfresh x (by simp [hx])) hact1
+  obtain ⟨ss2, b3, b4⟩ := b2 _ a4
+  have hk : (modifyNth (addEntryToStep en1) steps1.length ss0)[steps1.length]? = some (addEntryToStep en1 st0) := by
+    rw [modifyNth_getElem?]; simp [a2]
+  obtain ⟨st2, c1, c2, c3⟩ := b4.keep steps1.length _ hk
+  obtain ⟨X, hX⟩ := c3
+  -- e2
+  rw [apply_logLike hl2 ht2 hloc2 hen2] at hw3
+  obtain ⟨ref, m1, _, _, m4⟩ := addEntry_spec hw3
+  rw [b1] at m1; injection m1 with m1; subst m1
+  dsimp only at m4
+  obtain ⟨steps, m5, m6, _⟩ := m4
+  rw [b3] at m5; injection m5 with m5; subst m5
+  refine ⟨steps1.length, _, addEntryToStep en2 st2, st0.entries, X, m6, ?_, ?_, ?_⟩
+  · rw [modifyNth_getElem?]; simp [c1]
+  · show st2.description = d
+    rw [c2]; exact a3
+  · show st2.entries ++ [en2] = _
+    rw [← hX]; rfl
 
 /-! ### non-vacuity: a concrete interleaving satisfying all hypotheses above -/
 
